@@ -193,7 +193,11 @@ def run(ctx, V):
               "connects): device 0's dump, bytes, connect events and completions must be identical after every pass (explicit clock = identical timing); "
               "(3) pmsim differential (whole daemon, real transports): healthy-only clients' reply streams and the healthy devices' received bytes identical "
               "with device d silent / garbage / partial / closed (virtual timestamps compared and counted, not a verdict); (4) pmsim fault scenarios with alive / "
-              "wedge / protocol monitors.  (2)-(4) are search on the implementation, not proof.")
+              "wedge / protocol monitors; (5) pmsim directed differentials: d0 (coprocess, listed first, on/off scripts waiting in a `delay`) + d1 (tcp) healthy vs "
+              "refusing every connect (refuse-hup / refuse-soerr / syncfail, back-off running): the client's streams identical and the virtual times of its replies "
+              "within 20 ms (judged); (6) mixed: a request spanning d0 and the refusing d1 gets its terminal reply within the device time-outs, d0 is commanded, d1 "
+              "is named, protocol / wedge monitors.  The R-DEV monitor `timer` (requested time-out covers the head's deadline) runs on every R-DEV history.  "
+              "(2)-(6) are search on the implementation, not proof.")
 
 
 def replay(ctx, V, path):
